@@ -25,7 +25,19 @@ theorem gen_lock_tx_never_commits : Gen.Sql.commitCalls = [] := by decide
 /-- The database file, its `-wal` and its `-shm` are only ever opened with `os.Open` (read-only) by
     litestream's own file calls; never created, written, truncated, renamed or removed. -/
 theorem gen_db_file_readonly : ∀ c ∈ Gen.Sql.dbPathCalls,
-    c = "init: os.Open" ∨ c = "detectFullCheckpoint: os.Open" ∨ c = "snapshotReader: os.Open" ∨ c = "sync: os.Open" := by decide
+    c = "init: os.Open(db.path)" ∨ c = "detectFullCheckpoint: os.Open(db.WALPath())" ∨
+    c = "snapshotReader: os.Open(db.WALPath())" ∨ c = "sync: os.Open(db.WALPath())" := by decide
+
+/-- The database file itself is opened by litestream's own file calls exactly once, in `init`
+    (the handle `db.f`, kept until `Close`); its `-shm` never.  Every other descriptor on it would,
+    when closed, drop all POSIX locks the process holds on the file — SQLite's too. -/
+theorem gen_db_file_opened_once :
+    Gen.Sql.dbPathCalls.count "init: os.Open(db.path)" = 1 ∧
+    ∀ c ∈ Gen.Sql.dbPathCalls, c ≠ "init: os.Open(db.path)" →
+      c = "detectFullCheckpoint: os.Open(db.WALPath())" ∨ c = "snapshotReader: os.Open(db.WALPath())" ∨ c = "sync: os.Open(db.WALPath())" := by decide
+
+/-- The path of the database file (or of its `-shm`) is handed to no helper that could open it. -/
+theorem gen_db_path_not_passed_on : Gen.Sql.dbPathPassedTo = [] := by decide
 
 /-- The lock insert only ever occurs inside the function that rolls its transactions back. -/
 theorem gen_lock_insert_sites : ∀ s ∈ Gen.Sql.inventory, classify s.2 = some .insertLockInTx → s.1 = "checkpointWithExecutor" := by decide
